@@ -43,6 +43,7 @@ enum
     K_FAIL,
     K_BIGACQ,  // a tiff / tiff-json acquisition of a few ~1 GiB frames (sparse): file offsets beyond 4 GiB
     K_INTRUDER, // a second device is pointed at the running device's output and started: refused, and harmless
+    K_SWITCH,   // park the active device as it is and work with the other one
     K_COUNT
 };
 
@@ -51,7 +52,7 @@ const VhKindSpec kKinds[K_COUNT] = {
     { "START", 3, 0, 0, 0, 65535 },          { "FRAME", 8, 255, 65535, 65535, 65535 }, { "APPEND", 3, 0, 0, 0, 65535 },
     { "STOP", 3, 0, 0, 0, 65535 },           { "CLOSE", 2, 0, 0, 0, 0 },           { "SHORT", 2, 255, 65535, 0, 0 },
     { "FAIL", 3, 255, 255, 1, 0 },           { "BIGACQ", 1, 255, 65535, 0, 0 },
-    { "INTRUDER", 2, 255, 0, 0, 0 },
+    { "INTRUDER", 2, 255, 0, 0, 0 },          { "SWITCH", 3, 0, 0, 0, 0 },
 };
 
 enum
@@ -88,6 +89,8 @@ enum
     CL_BEYOND_4GIB,
     CL_INTRUDER_REFUSED,
     CL_INTRUDER_ADMITTED,
+    CL_TWO_DEVICES,
+    CL_TWO_DEVICES_RUNNING,
 };
 
 const VhSpec kSpec = {
@@ -101,7 +104,7 @@ const VhSpec kSpec = {
       "fault_fired", "fault_open", "fault_flock", "fault_pwrite", "fault_persistent", "device_used_after_fault", "failed_append_reported",
       "close_while_running", "close_without_start", "start_stop_without_frames", "f32_frames", "odd_image_size", "raw_file_compared",
       "tiff_file_read_back", "restart_without_set", "file_offsets_beyond_4GiB", "second_device_on_running_file_refused",
-      "second_device_on_running_file_admitted", nullptr },
+      "second_device_on_running_file_admitted", "two_devices_open", "two_devices_running", nullptr },
     { "C14 non-trivial: a raw file was compared byte for byte AND (>=2 acquisitions on that device, or a short write inside a multi-frame packet)",
       "C15 non-trivial: a TIFF file was read back AND (N>=2 frames in >=2 packets, or >=2 start/stop cycles on one device, or tiff-json)",
       "C16 non-trivial: an injected fault fired and the device was used again afterwards, or close while running / without start with the "
@@ -134,10 +137,9 @@ struct Acq
     bool interfered = false; // a second device was admitted to the same file: contents are not judged
 };
 
-struct Ctx
+// everything that belongs to one open device
+struct Slot
 {
-    VhCase c;
-    Driver* driver = nullptr;
     Storage* dev = nullptr;
     int kind = -1;             // 0 raw 1 tiff 2 tiff-json 3 trash
     int acq_on_device = 0;     // completed start/stop cycles on the current device
@@ -147,14 +149,33 @@ struct Ctx
     std::vector<uint8_t> pending;      // packet under construction
     std::vector<FrameRec> pending_frames;
     uint64_t next_frame_id = 0;
+    bool fault_seen = false;   // a fault fired at some point on this device
+};
+
+// The active device's state is the Slot base; a second device can be parked (SWITCH swaps them), so
+// two devices of any kinds are open / running at the same time and their descriptors interleave.
+struct Ctx : Slot
+{
+    VhCase c;
+    Driver* driver = nullptr;
+    Slot parked;
+    int parked_open = 0;       // descriptors held by the parked device
+    int active_slot = 0;
+    bool used_two = false;
     int path_counter = 0;
     std::string dir;           // scratch dir of this case
-    bool fault_seen = false;   // a fault fired at some point on this device
     bool short_on = false;
     bool restart_without_set = false;
     bool any_fail_token = false; // a FAIL token was seen in this case (its countdown must not be consumed by an intruder)
     std::vector<std::pair<void*, size_t>> big_maps;
+    int my_open() const;
 };
+
+int
+Ctx::my_open() const
+{
+    return vfd::open_owned_count() - parked_open;
+}
 
 Ctx* g = nullptr;
 DeviceManager g_dm;
@@ -749,9 +770,9 @@ do_stop(Ctx& x)
         check_tiff(x);
     if (x.c.ended)
         return;
-    if (vfd::open_owned_count() != 0) {
-        x.c.fail("C16", "descriptor-left-open-after-stop", kKindName[x.kind], "%s: %d descriptor(s) opened by the device are still open after stop returned (e.g. fd %d)",
-                 kKindName[x.kind], vfd::open_owned_count(), vfd::open_owned()[0]);
+    if (x.my_open() != 0) {
+        x.c.fail("C16", "descriptor-left-open-after-stop", kKindName[x.kind], "%s: %d descriptor(s) opened by the device are still open after stop returned (e.g. fd %d)%s",
+                 kKindName[x.kind], x.my_open(), vfd::open_owned().empty() ? -1 : vfd::open_owned()[0], x.parked_open ? "  [a second device holds descriptors of its own; they are not counted]" : "");
         return;
     }
     x.acq_on_device++;
@@ -802,15 +823,35 @@ do_close(Ctx& x)
     if (check_vfd(x, "close"))
         return;
     (void)closes_before;
-    if (vfd::open_owned_count() != 0) {
-        x.c.fail("C16", "descriptor-leak", kKindName[x.kind], "%s: %d descriptor(s) opened by the device are still open after the device was closed (e.g. fd %d)",
-                 kKindName[x.kind], vfd::open_owned_count(), vfd::open_owned()[0]);
+    if (x.my_open() != 0) {
+        x.c.fail("C16", "descriptor-leak", kKindName[x.kind], "%s: %d descriptor(s) opened by the device are still open after the device was closed (e.g. fd %d)%s",
+                 kKindName[x.kind], x.my_open(), vfd::open_owned().empty() ? -1 : vfd::open_owned()[0], x.parked_open ? "  [a second device holds descriptors of its own; they are not counted]" : "");
         return;
     }
     x.pending.clear();
     x.pending_frames.clear();
     x.acq = Acq();
     x.configured = false;
+}
+
+// Parks the active device (open, configured or running as it is) and activates the other one.
+void
+do_switch(Ctx& x)
+{
+    int mine = x.my_open();
+    Slot tmp = static_cast<Slot&>(x);
+    static_cast<Slot&>(x) = x.parked;
+    x.parked = tmp;
+    x.parked_open = mine;
+    x.active_slot ^= 1;
+    x.c.trace("SWITCH -> device slot %d (%s%s); parked: %s%s holding %d descriptor(s)", x.active_slot, x.dev ? kKindName[x.kind] : "none",
+              x.dev && x.acq.started ? ", running" : "", x.parked.dev ? kKindName[x.parked.kind] : "none", x.parked.dev && x.parked.acq.started ? ", running" : "",
+              x.parked_open);
+    if (x.dev && x.parked.dev) {
+        x.c.cls(CL_TWO_DEVICES);
+        if (x.acq.started && x.parked.acq.started)
+            x.c.cls(CL_TWO_DEVICES_RUNNING);
+    }
 }
 
 // While the device is running, a second device (same kind, or the other single-file kind) is
@@ -1133,6 +1174,9 @@ vh_run(const VhTok* tape, size_t n, VhReport* rep)
             case K_INTRUDER:
                 do_intruder(x, t);
                 break;
+            case K_SWITCH:
+                do_switch(x);
+                break;
             case K_FAIL: {
                 x.any_fail_token = true;
                 vfd::Fault f;
@@ -1159,6 +1203,13 @@ vh_run(const VhTok* tape, size_t n, VhReport* rep)
             do_stop(x);
         if (!x.c.ended)
             do_close(x);
+        if (!x.c.ended && x.parked.dev) {
+            do_switch(x);
+            if (x.dev && x.acq.started)
+                do_stop(x);
+            if (!x.c.ended)
+                do_close(x);
+        }
     }
     x.c.trace("VFD calls: open=%ld flock=%ld pwrite=%ld faults_fired=%ld", vfd::stats().calls[0], vfd::stats().calls[1], vfd::stats().calls[2],
               vfd::stats().faults_fired);
